@@ -1437,3 +1437,74 @@ func ruleSER12(c *Ctx) {
 	}
 	c.Notes = append(c.Notes, fmt.Sprintf("catalogue writes found: %d", writes))
 }
+
+func init() {
+	register("SER-14", "a reference to a node the stream does not contain ends the load with an error (no branch logs and goes on)", 2, ruleSER14)
+}
+
+// SER-14 (sibling agreement): BuildKnowledgeBase resolves about thirty references through its import table. All but the
+// tolerant ones fail on a missing id (the type assertion on the absent entry panics below the loader's barrier and becomes
+// an error). A branch that logs the missing id and continues leaves a nil child or a missing registry entry in a knowledge
+// base that "loaded successfully": the next NewKnowledgeBaseInstance dereferences it outside any barrier.
+func ruleSER14(c *Ctx) {
+	p := c.P
+	fn := p.Method("ast", "Catalog", "BuildKnowledgeBase")
+	if fn == nil {
+		c.AnchorLost("Catalog.BuildKnowledgeBase")
+		return
+	}
+	loops := naturalLoops(fn)
+	strict, tolerant := 0, 0
+	for _, b := range fn.Blocks {
+		for _, in := range b.Instrs {
+			lk, ok := in.(*ssa.Lookup)
+			if !ok {
+				continue
+			}
+			if _, isMake := unspill(lk.X).(*ssa.MakeMap); !isMake {
+				continue
+			}
+			if !isNamed(lk.Type(), fullPkg("ast"), "Node") {
+				if tup, ok := lk.Type().(*types.Tuple); !ok || tup.Len() != 2 || !isNamed(tup.At(0).Type(), fullPkg("ast"), "Node") {
+					continue
+				}
+			}
+			if !lk.CommaOk {
+				strict++ // used through a type assertion: an absent entry panics below the barrier (SER-8)
+				continue
+			}
+			// comma-ok form: the not-found edge must end in an error return
+			var okVal ssa.Value
+			for _, r := range *lk.Referrers() {
+				if ex, isEx := r.(*ssa.Extract); isEx && ex.Index == 1 {
+					okVal = ex
+				}
+			}
+			decided := false
+			if okVal != nil {
+				for _, r := range *okVal.Referrers() {
+					iff, isIf := r.(*ssa.If)
+					if !isIf {
+						continue
+					}
+					decided = true
+					nf := iff.Block().Succs[1]
+					key := fmt.Sprintf("BuildKnowledgeBase / missing id at %s ends the load", shortBlockLabel(iff.Block()))
+					if onlyErrorReturns(nf, loops) {
+						strict++
+						c.OK(key, p.InstrPos(lk), "the not-found edge returns an error")
+					} else {
+						tolerant++
+						c.Fail(key, p.InstrPos(lk), "when the id is not in the stream this branch only logs and goes on: the knowledge base loads with a nil child or without the registry entry, and the next NewKnowledgeBaseInstance panics in Clone/GetSnapshot (its siblings fail the load on a missing id)")
+					}
+				}
+			}
+			if !decided {
+				c.Undecided("BuildKnowledgeBase / comma-ok lookup at "+shortBlockLabel(b), p.InstrPos(lk), "the presence flag of the lookup is not tested by a branch")
+			}
+		}
+	}
+	c.Check(strict >= 20, "BuildKnowledgeBase / references are resolved through the import table", p.Pos(fn.Pos()), fmt.Sprintf("%d strict lookups, %d tolerant", strict, tolerant), fmt.Sprintf("only %d strict lookups found (anchor lost)", strict))
+}
+
+func shortBlockLabel(b *ssa.BasicBlock) string { return fmt.Sprintf("block %s#%d", b.Comment, b.Index) }
